@@ -133,7 +133,7 @@ Holds(c) == CASE c = "C18_LookupKeyMatches" -> C18_LookupKeyMatches [] c = "C18_
 TStep == /\ TNext
          /\ LET nb == {c \in Clauses : ~(Holds(c))'} IN
               /\ bad' = bad \cup {<<l, c>> : c \in nb}
-              /\ (nb = {} \/ Cardinality(bad) > 40 \/ PrintT(<<"VERIF_BAD", l, nb>>))
+              /\ (nb = {} \/ Cardinality(bad) > 2000 \/ PrintT(<<"VERIF_BAD", l, nb>>))
          /\ IF C18_AdmitRetrievableStrict' THEN nstrict' = nstrict
             ELSE /\ nstrict' = nstrict + 1
                  /\ (nstrict >= 3 \/ PrintT(<<"VERIF_BAD", l, {"C18_AdmitRetrievableStrict"}>>))
